@@ -610,6 +610,14 @@ func (b *respBody) Close() error {
 	return nil
 }
 
+// ConnOf returns the exchange record behind a response body of the simulated network.
+func ConnOf(body io.ReadCloser) *Conn {
+	if b, ok := body.(*respBody); ok {
+		return b.c
+	}
+	return nil
+}
+
 // PathOf is a helper for traces.
 func (c *Conn) String() string {
 	return fmt.Sprintf("c%d %s %s%s -> %d %s", c.ID, c.Method, c.Host, c.Path, c.Status, strings.TrimSpace(c.Outcome))
